@@ -1039,6 +1039,15 @@ class Model:
                     ):
                         return False
 
+                    # Two variables that are already aliases of each other: the equation
+                    # either repeats that (and removing it would leave an unknown without
+                    # equation) or contradicts its sign (forcing both to zero). Keep it.
+                    if (
+                        self.alias_relation.canonical_signed(alg_state.name())[0]
+                        == self.alias_relation.canonical_signed(other_state.name())[0]
+                    ):
+                        return False
+
                     # Check to see if we are linking two entries in do_not_eliminate
                     if (
                         self.alias_relation.canonical_signed(alg_state.name())[0]
